@@ -38,6 +38,8 @@ MOS = [
              precedes(Q + "insert_with_k_scoped_internal", STATE_WRITE, CACHE_INSERT),
              lambda F: _gen_load_under_lock(F)),
        functions=[("query_hash_cache.rs", "insert_with_k_scoped_internal")]),
+    MO("O7.5/unique_ids", "QueryHashCache::invalidate_doc / unique_result_doc_ids: keys / ids are sorted before Vec::dedup, so the reverse index holds each (doc, key) pair once and invalidation visits each key once",
+       sorted_before_dedup(r"^query_hash_cache::QueryHashCache::(invalidate_doc|unique_result_doc_ids)$"), functions=[("query_hash_cache.rs", "invalidate_doc"), ("query_hash_cache.rs", "unique_result_doc_ids")]),
     MO("O7.2/hit_decision", "get_scoped: an exact hit (cached results copied and served) happens only when the key is cached and cached.requested_k >= k — proved for all values of the two counts (DECIDES)",
        lambda F: _hit_decision(F), functions=[("query_hash_cache.rs", "get_scoped")]),
     MO("O7.2/k_and_scope", "get_scoped: the key carries the scope; insert_with_k_scoped_if_generation passes Some(expected_generation)",
